@@ -471,6 +471,16 @@ def run_c29(ctx):
                 r = vlib.tlc(ctx, "RemoteTreeFS", cfg, workers=2, allow_violation=True)
                 ctx.extra["design_flaw_%s_counterexample" % inv] = r.invariant is not None
         ctx.exhaustive = True
+    # Every Open the spec calls a loop or an absolute symlink runs in a subprocess. A DIRECT loop (no symlink passed
+    # mid-path) costs one process start each on the unchanged tree (it dies), so the quick tier runs all of those of
+    # trees with <=2 nodes and a seeded sample of the rest; the thorough tier and replays run every one.
+    rnd = random.Random(ctx.seed)
+    direct = [(c, k) for c in cases if not c.get("handle") for k, e in enumerate(c["qs"]) if e["open"] == "loop" and not e["via"]]
+    skip = set()
+    if ctx.quick and ctx.replay_only is None:
+        big = [(id(c), k) for c, k in direct if len(c["nodes"]) > 2]
+        rnd.shuffle(big)
+        skip = set(big[40:])
     send = []
     for i, c in enumerate(cases):
         c["id"] = i
@@ -478,7 +488,9 @@ def run_c29(ctx):
             send.append(dict(id=i, handle=True, n=c["n"], calls=c["calls"]))
         else:
             send.append(dict(id=i, nodes=c["nodes"], fstest=c["fstest"],
-                             qs=[dict(q=e["q"], risky=e["open"] in ("loop", "abs")) for e in c["qs"]]))
+                             qs=[dict(q=e["q"], risky=e["open"] in ("loop", "abs"), skip=(id(c), k) in skip) for k, e in enumerate(c["qs"])]))
+    ctx.extra["direct_loop_opens"] = len(direct)
+    ctx.extra["direct_loop_opens_not_run_in_this_tier"] = len(skip)
     obs = vlib.run_vh(ctx, "casfs", send, timeout=3000)
     n_q = n_sub = n_fstest = n_model_crash = 0
     n_q_drift = [0]
@@ -514,7 +526,7 @@ def run_c29(ctx):
         for e, q in zip(c["qs"], o["qs"]):
             n_q += 1
             n_sub += bool(q.get("subprocess"))
-            n_model_crash += e["algo"] == "crash"
+            n_model_crash += e["algo"] == "crash" and q.get("open") is not None
 
             def viol(cls, why, e=e, q=q):
                 ctx.violation("C29 " + cls, dict(case=c, tree=text, path=cf_path(e["q"]), expect={k: e[k] for k in ("open", "lst", "via", "algo")},
@@ -523,7 +535,7 @@ def run_c29(ctx):
             cf_judge_stat(e, q.get("stat"), viol)
             cf_judge_read(e, q, viol)
             oo = q.get("open") or {}
-            if e["algo"] == "crash" and not cf_crashed(oo) and n_q_drift[0] < 3:
+            if e["algo"] == "crash" and q.get("open") is not None and not cf_crashed(oo) and n_q_drift[0] < 3:
                 n_q_drift[0] += 1
                 ctx.drift("algorithm model predicts unbounded recursion on %s of %s but the code returned %s" % (cf_path(e["q"]), text, oo.get("err")))
         ft = o.get("fstest")
